@@ -1,0 +1,65 @@
+//go:build verif
+
+package verifapi
+
+import (
+	"fmt"
+
+	"github.com/tidwall/redcon"
+	"github.com/tidwall/tile38/internal/server"
+)
+
+// RespParsed is one outcome of redcon.ReadNextCommand.
+type RespParsed struct {
+	Outcome  string // "complete" | "incomplete" | "err" | "panic"
+	Args     [][]byte
+	Kind     int
+	Leftover int // len(leftover)
+	Err      string
+}
+
+// ReadNextCommand calls redcon.ReadNextCommand (the framing parser used by
+// loadAOF and by the connection reader); a run-time panic is caught and
+// reported as outcome "panic".
+func ReadNextCommand(packet []byte) (res RespParsed) {
+	defer func() {
+		if r := recover(); r != nil {
+			res = RespParsed{Outcome: "panic", Err: fmt.Sprint(r)}
+		}
+	}()
+	complete, args, kind, leftover, err := redcon.ReadNextCommand(packet, nil)
+	res.Kind = int(kind)
+	res.Leftover = len(leftover)
+	if err != nil {
+		res.Outcome = "err"
+		res.Err = err.Error()
+		return res
+	}
+	if !complete {
+		res.Outcome = "incomplete"
+		return res
+	}
+	res.Outcome = "complete"
+	res.Args = args
+	return res
+}
+
+// AppendCommand encodes args the way writeAOF does (AppendArray + AppendBulkString).
+func AppendCommand(b []byte, args []string) []byte {
+	b = redcon.AppendArray(b, len(args))
+	for _, a := range args {
+		b = redcon.AppendBulkString(b, a)
+	}
+	return b
+}
+
+// ServerReadNextCommand is server.readNextCommand (HTTP sniffing + redcon).
+func ServerReadNextCommand(packet []byte) server.VerifParsed {
+	return server.VerifReadNextCommand(packet)
+}
+
+// Pipe is a server.PipelineReader driven like netServe drives it.
+type Pipe = server.VerifPipe
+
+// NewPipe returns an empty pipeline reader.
+func NewPipe() *Pipe { return server.NewVerifPipe() }
